@@ -1,11 +1,11 @@
 /- line-protocol handler for the Ops model (C08).
    operand : (ts (L (T T:<t> <cell>)*)) | (num <cell>) | (L operand*)        cell = I:<4x> | F:nan
    ops     : (ops bin <add|sub|mul|div> <a> <b> <ij|oj|lj|rj> <N|ffill|bfill>)      a, b: operand or list of operands
-             (ops agg <sum|mean|count> (L operand*) <how> <method>)
+             (ops agg <sum|mean|count> (L operand*) <how> <method>)                 Series and scalars; no Series at all -> (num ..)
    replies : (ts (L (T T:<t> Q:<num>/<den> | F:nan)*)) | (num Q:<num>/<den> | F:nan) | N
    frames  : foperand = operand | (df (T (L T:<t>*) (D (<hexname> (L <cell>*))*)))     (distinct names, >= 1 column, rectangular)
              (ops binf <add|sub|mul|div> <a> <b> <how> <method> <ij|oj>)                a, b: foperand or list of foperands
-             (ops aggf <sum|mean|count> (L (df ..)*) <how> <method> <ij|oj>)            frames with >= 2 columns each
+             (ops aggf <sum|mean|count> (L (df ..) | (num ..) ...) <how> <method> <ij|oj>)  frames with >= 2 columns each (at least one), scalars
    others  : (ops cmp <gt|ge|lt|le> <a> <b> <how> <method>)    replies (bts (L (T T:<t> true|false)*)) | (flag true|false)
              (ops mm <min|max> <a> <b> <how> <method>)           a, b: operand or list of operands; replies as `bin`
              (ops pow <a> <b> <how> <method>)                    exponents NaN or non-negative integers, else bad-op
@@ -125,7 +125,7 @@ def handle1 (op : String) (args : List Sexp) : Option String := do
       let g ← aggOf g; let xs ← operandsOf xs; let how ← howOf how; let m ← dirOf m
       match aggregate g how m xs with
       | some s => pure ("ok " ++ operandStr (.ts s))
-      | Option.none => pure "ok (num F:nan)"
+      | Option.none => pure ("ok " ++ operandStr (.num (aggregateNum g xs)))      -- no Series at all: a scalar
   | "cmp", [c, a, b, how, m] =>
       let c ← cmpOf c; let a ← operandOf a; let b ← operandOf b; let how ← howOf how; let m ← dirOf m
       pure ("ok " ++ boperandStr (cmpop c how m a b))
@@ -144,12 +144,14 @@ def handle1 (op : String) (args : List Sexp) : Option String := do
       | Option.none => pure "ok N"
   | "aggf", [g, xs, how, m, ch] =>
       let g ← aggOf g; let xs ← foperandsOf xs; let how ← howOf how; let m ← dirOf m; let ch ← colHowOf2 ch
-      let fs ← xs.mapM fun x => match x with
-        | .df f => if f.cols.length > 1 then some f else Option.none
-        | _ => Option.none
-      match aggregateF g how m ch fs with
-      | some f => pure ("ok " ++ frameStr f)
-      | Option.none => pure "ok (num F:nan)"
+      let ok := xs.all fun x => match x with
+        | .df f => f.cols.length > 1
+        | .num _ => true
+        | .ts _ => false
+      if !ok || (framesOfX xs).isEmpty then Option.none      -- Series / one-column frames among frames: not modelled (C08-A1)
+      else match aggregateFS g how m ch xs with
+        | some f => pure ("ok " ++ frameStr f)
+        | Option.none => Option.none
   | _, _ => Option.none
 
 def handle (s : St) (op : String) (args : List Sexp) : Option (St × String) :=
